@@ -291,7 +291,9 @@ type pmsg struct {
 }
 
 type histo struct {
-	c     *evid.Case
+	c      reporter
+	rng    *rand.Rand
+	sample bool
 	st    *state
 	s     scen
 	cl    *dsim.Cluster
@@ -302,26 +304,53 @@ type histo struct {
 	id    spectypes.MessageID
 	log   []string
 	value []byte
+	setupSubmits int
+	findings     [][2]string
 }
 
 func (h *histo) logf(f string, a ...any) { h.log = append(h.log, fmt.Sprintf(f, a...)) }
 
 func run(c *evid.Case, s scen) {
-	st := c.Data.(*state)
+	runHist(c.Data.(*state), c.Rng, c, c.Index == 0 && c.Idx < 3, s)
+}
+
+// reporter is the part of *evid.Case a history reports to.
+type reporter interface {
+	Journal(format string, a ...any)
+	Count(name string, n int64)
+	Nontrivial(h uint64)
+	Distinct(set string, h uint64)
+	Sample(v any)
+	Inconclusive(why string)
+	Violation(kind, sig, detail string, witness any)
+}
+
+type nopReporter struct{}
+
+func (nopReporter) Journal(string, ...any)                {}
+func (nopReporter) Count(string, int64)                   {}
+func (nopReporter) Nontrivial(uint64)                     {}
+func (nopReporter) Distinct(string, uint64)               {}
+func (nopReporter) Sample(any)                            {}
+func (nopReporter) Inconclusive(string)                   {}
+func (nopReporter) Violation(string, string, string, any) {}
+
+// runHist runs one history and returns it (nil if the setup failed).
+func runHist(st *state, rng *rand.Rand, c reporter, sample bool, s scen) *histo {
 	c.Journal("C05 %s", s)
 	mode := "runner"
 	if s.validator {
 		mode = "validator"
 	}
-	cl := dsim.NewCluster(st.env, c.Rng, dsim.Config{N: s.n, Mode: mode, Blinded: s.ph.blinded, Only: []int{int(s.u) - 1}})
+	cl := dsim.NewCluster(st.env, rng, dsim.Config{N: s.n, Mode: mode, Blinded: s.ph.blinded, Only: []int{int(s.u) - 1}})
 	defer cl.Close()
-	h := &histo{c: c, st: st, s: s, cl: cl, op: cl.Ops[s.u-1]}
+	h := &histo{c: c, rng: rng, sample: sample, st: st, s: s, cl: cl, op: cl.Ops[s.u-1]}
 	role := s.ph.role
 	h.id = dsim.MsgID(cl.KS.ValidatorPK.Serialize(), role)
 	h.duty = dsim.DutyFor(role, dsim.BaseSlot(role, 0, s.ph.deneb))
 	if err := cl.StartDuty(h.op, h.duty, "fresh", nil); err != nil {
 		c.Inconclusive("harness: duty start failed: " + err.Error())
-		return
+		return nil
 	}
 	cl.Pool = nil
 	preExp, preTyp, _ := dsim.PreExpected(h.duty, h.op.Share)
@@ -340,7 +369,7 @@ func run(c *evid.Case, s scen) {
 				}
 				if m == nil {
 					c.Inconclusive("harness: operator did not broadcast its pre-consensus share")
-					return
+					return nil
 				}
 				_ = cl.Deliver(h.op, m, "setup-pre")
 			}
@@ -349,13 +378,13 @@ func run(c *evid.Case, s scen) {
 		snap := dsim.TakeSnap(h.op.Real[role])
 		if !snap.HasInstance {
 			c.Inconclusive("harness: no running instance after the pre-consensus quorum: " + strings.Join(tail(cl.Acts, 6), " | "))
-			return
+			return nil
 		}
 		h.value = dsim.ValueFor(role, h.duty.Slot, 0, s.ph.blinded)
 		dm := st.env.Decided(cl.KS, h.id[:], specqbft.Height(h.duty.Slot), 1, h.value, dsim.FirstSigners(s.n, int(cl.KS.Threshold)))
 		if err := cl.Deliver(h.op, dsim.WrapConsensus(h.id, dm), "setup-decided"); err != nil {
 			c.Inconclusive("harness: genuine decided message rejected: " + err.Error())
-			return
+			return nil
 		}
 		cl.Pool = nil
 		cd := &spectypes.ConsensusData{}
@@ -385,7 +414,9 @@ func run(c *evid.Case, s scen) {
 		h.logf("deliver from %d [%s] -> err=%v; submissions so far %d", p.from, p.label, err != nil, len(h.op.Submits)-setupSubmits)
 		c.Count("msg_"+p.label, 1)
 	}
+	h.setupSubmits = setupSubmits
 	h.judge(list, setupSubmits)
+	return h
 }
 
 func tail(a []string, n int) []string {
@@ -460,7 +491,7 @@ func (h *histo) buildMessages() []pmsg {
 		garbage := func() *spectypes.SSVMessage {
 			return corrupt(func(pm *spectypes.PartialSignatureMessage, i int) {
 				b := make([]byte, 96)
-				h.c.Rng.Read(b)
+				h.rng.Read(b)
 				pm.PartialSignature = b
 			})
 		}
@@ -481,7 +512,7 @@ func (h *histo) buildMessages() []pmsg {
 			list = append(list, pmsg{from: id, m: m, label: "bad:" + k.name, bad: true, pair: -1})
 		case "wrong-root-list":
 			ps := env.PartialSigMsg(ks, id, h.typ, h.duty.Slot, rs)
-			switch h.c.Rng.Intn(3) {
+			switch h.rng.Intn(3) {
 			case 0: // an extra root
 				x := sha256.Sum256([]byte("extra root"))
 				ps.Message.Messages = append(ps.Message.Messages, &spectypes.PartialSignatureMessage{PartialSignature: env.ShareSig(ks, id, x), SigningRoot: x, Signer: id})
@@ -508,7 +539,7 @@ func (h *histo) buildMessages() []pmsg {
 		case "permuted-roots":
 			ps := env.PartialSigMsg(ks, id, h.typ, h.duty.Slot, rs)
 			ms := ps.Message.Messages
-			r := 1 + h.c.Rng.Intn(len(ms)-1)
+			r := 1 + h.rng.Intn(len(ms)-1)
 			ps.Message.Messages = append(append([]*spectypes.PartialSignatureMessage{}, ms[r:]...), ms[:r]...)
 			list = append(list, pmsg{from: id, m: dsim.WrapPartial(h.id, env.SealPartial(ks, id, ps.Message)), label: "good:permuted-roots", bad: true, pair: -1})
 		}
@@ -518,7 +549,7 @@ func (h *histo) buildMessages() []pmsg {
 
 // order returns the arrival order (indices into list).
 func (h *histo) order(list []pmsg) []int {
-	s, rng := h.s, h.c.Rng
+	s, rng := h.s, h.rng
 	n := len(list)
 	var ord []int
 	if s.perm >= 0 {
@@ -721,7 +752,8 @@ func (h *histo) judge(list []pmsg, setupSubmits int) {
 		if request {
 			kind = "request-" + kind
 		}
-		c.Violation(kind, fmt.Sprintf("%s/%s/%s", s.ph.name, code, h.shape()), detail+"\nscenario: "+s.String()+"\nhistory:\n  "+strings.Join(h.log, "\n  "), h.witness(list))
+		h.findings = append(h.findings, [2]string{kind, fmt.Sprintf("%s/%s", s.ph.name, code)})
+		c.Violation(kind, fmt.Sprintf("%s/%s", s.ph.name, code), detail+"\nbad-sender shape: "+h.shape()+"\nscenario: "+s.String()+"\nhistory:\n  "+strings.Join(h.log, "\n  "), h.witness(list))
 	}
 	for _, ev := range h.op.Submits[setupSubmits:] {
 		if ev.Role != s.ph.role {
@@ -730,6 +762,7 @@ func (h *histo) judge(list []pmsg, setupSubmits int) {
 		for _, sub := range objectsOf(ev, h.duty.Slot) {
 			nsub++
 			c.Count("submission_"+ev.Method, 1)
+			c.Count("submission_role_"+ev.Role.String(), 1)
 			r, err := sub.obj.HashTreeRoot()
 			if err != nil {
 				viol("invalid-submission", "unhashable-object", fmt.Sprintf("%s: object does not hash: %v", ev.Method, err), sub.request)
@@ -737,7 +770,7 @@ func (h *histo) judge(list []pmsg, setupSubmits int) {
 			}
 			sr := dsim.SigningRoot(r, dsim.DomainOf(sub.dt))
 			if !dsim.VerifySig(vpk, sr, sub.sig[:]) {
-				viol("invalid-submission", "signature-does-not-verify/"+sub.name,
+				viol("invalid-submission", "signature-does-not-verify/"+baseName(sub.name),
 					fmt.Sprintf("%s handed the beacon node a %s whose signature %x.. does not verify under the validator public key over the object's signing root %x", ev.Method, sub.name, sub.sig[:6], sr[:6]), sub.request)
 			}
 			known := false
@@ -747,7 +780,7 @@ func (h *histo) judge(list []pmsg, setupSubmits int) {
 				}
 			}
 			if !known {
-				viol("invalid-submission", "object-not-the-decided-one/"+sub.name,
+				viol("invalid-submission", "object-not-the-decided-one/"+baseName(sub.name),
 					fmt.Sprintf("%s handed the beacon node a %s (root %x) that is not an object of the decided value / of the duty", ev.Method, sub.name, r[:6]), sub.request)
 			}
 			if _, isSync := ev.Obj.(*altair.SyncCommitteeMessage); isSync {
@@ -758,7 +791,7 @@ func (h *histo) judge(list []pmsg, setupSubmits int) {
 			}
 			count[r]++
 			if count[r] == 2 {
-				viol("object-submitted-twice", sub.name, fmt.Sprintf("%s: the %s (root %x) was handed to the beacon node a second time", ev.Method, sub.name, r[:6]), sub.request)
+				viol("object-submitted-twice", baseName(sub.name), fmt.Sprintf("%s: the %s (root %x) was handed to the beacon node a second time", ev.Method, sub.name, r[:6]), sub.request)
 			}
 		}
 	}
@@ -807,9 +840,16 @@ func (h *histo) judge(list []pmsg, setupSubmits int) {
 		c.Nontrivial(evid.Hash(s.ph.name, s.n, kindNames(s), s.which, s.family, s.perm, len(s.bad)))
 		c.Count("histories_nontrivial", 1)
 	}
-	if c.Index == 0 && c.Idx < 3 {
+	if h.sample {
 		c.Sample(map[string]any{"scenario": s.String(), "history": h.log, "submissions": nsub, "correct_senders": len(correct)})
 	}
+}
+
+func baseName(n string) string {
+	if i := strings.IndexByte(n, '('); i >= 0 {
+		return n[:i]
+	}
+	return n
 }
 
 func kindNames(s scen) string {
@@ -835,4 +875,3 @@ func (h *histo) witness(list []pmsg) map[string]any {
 	return map[string]any{"scenario": h.s.String(), "history": h.log, "operator_inputs": tail(h.cl.Acts, 80)}
 }
 
-var _ = rand.Int
